@@ -643,6 +643,22 @@ func scenarioFamily() *family {
 		}
 		_ = g1
 	})
+	sc("csidh.GeneratePublicKey(into-used)", func(run *core.Run, imm uint64) {
+		var sk, other csidh.PrivateKey
+		if csidh.GeneratePrivateKey(&sk, core.NewStream(imm)) != nil || csidh.GeneratePrivateKey(&other, core.NewStream(imm+1)) != nil {
+			panic("HARNESS: csidh.GeneratePrivateKey")
+		}
+		var fresh, used csidh.PublicKey
+		csidh.GeneratePublicKey(&used, &other, core.NewStream(imm+2)) // the object held another key
+		csidh.GeneratePublicKey(&fresh, &sk, core.NewStream(imm+3))
+		csidh.GeneratePublicKey(&used, &sk, core.NewStream(imm+4))
+		a, b := make([]byte, csidh.PublicKeySize), make([]byte, csidh.PublicKeySize)
+		fresh.Export(a)
+		used.Export(b)
+		if !bytes.Equal(a, b) {
+			run.Violate("hist[scenarios].csidh.GeneratePublicKey", "decode-into-used-object-differs", "the public key of one private key, generated into a fresh object: %x…, into an object that held another key: %x…", a[:8], b[:8])
+		}
+	})
 	sc("csidh.DeriveSecret(operands)", func(run *core.Run, imm uint64) {
 		var skA, skB csidh.PrivateKey
 		var pkA, pkB csidh.PublicKey
